@@ -215,12 +215,24 @@ def explore(ctx):
         must_refuse.append(("file state", [f_, "N1", "--ready", "--unready"]))
         must_refuse.append(("file state", [f_, "N1", "--set=bogus"]))
     must_refuse.append(("file state", ["acq1/f2", "N1", "--ready"]))  # no copy at all
+    # numeric options on and beyond their documented bounds, with --force so that nothing but the refusal stands between the command and the index
+    for sz in ("0", "0.0", "-1", "-0.5"):
+        for extra in ([], ["--now"], ["--archive-ok"]):
+            must_refuse.append(("node clean", ["N1", f"--size={sz}", "--force"] + extra))
+    for d in ("0", "-3"):
+        must_refuse.append(("node clean", ["N1", f"--days={d}", "--force"]))
+    for opt in ("--max-total=0", "--max-total=-5", "--auto-verify=-1", "--min-avail=-0.5"):
+        must_refuse.append(("node modify", ["N1", opt]))
+        must_refuse.append(("node create", ["N9", "--group=G1", opt]))
+    must_refuse += [("node sync", ["N1", "--force"]), ("node sync", ["N1", "G1", "--all", "--force"]), ("group sync", ["G1", "--force"]), ("group sync", ["G1", "N1", "--all", "--force"]),
+                    ("file sync", ["acq1/f0", "--to=G1", "--force"]), ("file sync", ["acq1/f0", "--from=N1", "--force"]), ("file import", ["/abs/path", "N1"]), ("file modify", ["acq1/f0"]),
+                    ("file create", ["f9", "acq1"]), ("file create", ["f9", "acq1", "--md5=" + "0" * 32])]
     for cmdname, args in must_refuse:
         before, after, code, out, exc, log = run_once(st_spec, base, cmdname, args, None)
         ctx.count("must-refuse")
         rp = {"family": "cli", "command": cmdname, "args": args, "input": None, "spec": st_spec}
         if code == 0 and exc is None:
-            ctx.fail("C17:usage-error-accepted", f"alpenhorn {cmdname} {' '.join(args)} is a usage error (ready bit for a copy that is not healthy / contradictory or unknown options) but exited 0"
+            ctx.fail("C17:usage-error-accepted", f"alpenhorn {cmdname} {' '.join(args)} is a usage error (ready bit for a copy that is not healthy, contradictory or unknown options, a number outside its documented range, a missing argument) but exited 0"
                      + ("" if before == after else " and changed the index"), rp)
         elif before != after:
             ctx.fail("C17:mutated-in-rejected", f"alpenhorn {cmdname} {' '.join(args)} was rejected (exit {code}) after changing the index", rp)
